@@ -9,7 +9,7 @@ from mc import build, detmodels, env, lossref, pool, report
 from checks.c06 import observations
 
 TIMES = np.linspace(0.5, 4.0, 8)
-FIT_TIMEOUT = 120          # seconds; a fit that needs longer is counted as cut, not judged
+FIT_TIMEOUT = 120          # seconds of processor time; a fit that needs longer is counted as cut, not judged
 
 
 class _Timeout(Exception):
@@ -97,8 +97,8 @@ def job(args):
         sig = {"loss": kind, "box": boxkind, "start": sname.split("(")[0], "target_param": None if tp is None else (
             "model-order" if tp == [z for z in params if z in tp] else "permuted"), "nparam": q}
         conv = {"list": list, "array": lambda a: np.array(a, float), "tuple": tuple}[container]
-        signal.signal(signal.SIGALRM, _alarm)
-        signal.alarm(FIT_TIMEOUT)
+        signal.signal(signal.SIGPROF, _alarm)            # processor time, not wall time
+        signal.setitimer(signal.ITIMER_PROF, FIT_TIMEOUT)
         try:
             m, _ = build.build(d)
             m.parameters = list(theta_gen)
@@ -113,12 +113,12 @@ def job(args):
             else:
                 xhat = obj.fit(conv(start), **kw)
             xhat = np.asarray(xhat, float)
-            signal.alarm(0)
+            signal.setitimer(signal.ITIMER_PROF, 0)
         except _Timeout:
             out["timeouts"] += 1
             continue
         except Exception as e:
-            signal.alarm(0)
+            signal.setitimer(signal.ITIMER_PROF, 0)
             out["viol"].append((dict(sig, what="raised"), dict(case, error="%s: %s" % (type(e).__name__, str(e)[:300]))))
             continue
         out["runs"] += 1
